@@ -194,4 +194,45 @@ def sscd (nn : Cloud α → Vec3 α → Nat) (tgt : Cloud α) (cur : Cloud α) :
 def mscd (nn : Cloud α → Vec3 α → Nat) (tgt : Cloud α) (cur : Cloud α) : α :=
   sscd nn tgt cur * (k 1 / k cur.length)
 
+/-! ## batches and call histories
+
+`svdtf` / `svdstf` treat the leading batch axes item by item: `mask`, the column flip, `R`, `t` and the conversion are
+all per-item tensor operations (the only batch-level decision on the path is `mat2Sim3`'s rank test, modelled in
+`Convert.lean`).  An `ICP` module reads exactly one piece of its own state in `forward`: the constructor's `init`
+(overridden by a per-call `init`); the stepper is `reset()` at the start of every call. -/
+
+/-- a batched `svdtf` call -/
+def svdtfBatch (svd : Mat3 α → SVD3 α) (detK : Mat3 α → α) (atol : α) (items : List (Pairs α)) : List (SE3 α) :=
+  items.map (svdtf svd detK atol)
+
+/-- the state of an `ICP` module object that `forward` reads -/
+structure IcpMod (α : Type) where
+  init : Option (SE3 α)
+
+/-- the per-call arguments: `init=` of `forward`, the number of passes the (reset) stepper allows, the two clouds -/
+structure IcpCall (α : Type) where
+  fwdInit : Option (SE3 α)
+  passes : Nat
+  src : Cloud α
+  tgt : Cloud α
+
+/-- `init = init if init is not None else self.init` -/
+def IcpMod.effInit (m : IcpMod α) (c : IcpCall α) : Option (SE3 α) :=
+  match c.fwdInit with
+  | some T => some T
+  | none => m.init
+
+/-- one call: the module is left as it was, the result is `icp` with the effective initial transform -/
+def IcpMod.forward (align : Pairs α → SE3 α) (nn : Cloud α → Vec3 α → Nat) (m : IcpMod α) (c : IcpCall α) :
+    IcpMod α × SE3 α :=
+  (m, icp align nn (m.effInit c) c.passes c.src c.tgt)
+
+/-- a history of calls on one module object: the final module and the list of results -/
+def IcpMod.run (align : Pairs α → SE3 α) (nn : Cloud α → Vec3 α → Nat) : IcpMod α → List (IcpCall α) → IcpMod α × List (SE3 α)
+  | m, [] => (m, [])
+  | m, c :: cs =>
+    let r := m.forward align nn c
+    let rest := IcpMod.run align nn r.1 cs
+    (rest.1, r.2 :: rest.2)
+
 end PP.Align
